@@ -93,7 +93,7 @@ func checkC03(c *core.Ctx, l *core.Ledger) {
 			continue
 		}
 		name := core.DeclName(fd)
-		if name == "fixedWidth" {
+		if name == "fixedWidth" || core.CanonName(f) == "fixedWidth" {
 			continue // table, checked by FIXEDWIDTH
 		}
 		var extra func(*types.Const) bool
@@ -334,7 +334,7 @@ func consumingFuncs(c *core.Ctx, m *wireModel) map[*ssa.Function]bool {
 	}
 	byName := map[string]*ssa.Function{}
 	for _, f := range layer {
-		byName[f.Name()] = f // names unique enough within the layer for call: events of the same package
+		byName[core.CanonName(f)] = f // names unique enough within the layer for call: events of the same package
 	}
 	for changed := true; changed; {
 		changed = false
@@ -1351,12 +1351,12 @@ func checkSkipRead(c *core.Ctx, l *core.Ledger, m *wireModel) {
 		ok := false
 		core.Instrs(f, func(in ssa.Instruction) {
 			call, isCall := in.(*ssa.Call)
-			if !isCall || call.Call.StaticCallee() == nil || call.Call.StaticCallee().Name() != "skipMapItems" {
+			if !isCall || call.Call.StaticCallee() == nil || core.CanonName(call.Call.StaticCallee()) != "skipMapItems" {
 				return
 			}
 			var order []ssa.Value
 			core.Instrs(f, func(i2 ssa.Instruction) {
-				if c2, ok := i2.(*ssa.Call); ok && c2.Call.StaticCallee() != nil && strings.HasPrefix(c2.Call.StaticCallee().Name(), "ReadInt") {
+				if c2, ok := i2.(*ssa.Call); ok && c2.Call.StaticCallee() != nil && strings.HasPrefix(core.CanonName(c2.Call.StaticCallee()), "ReadInt") {
 					order = append(order, c2)
 				}
 			})
@@ -1461,7 +1461,7 @@ func skipSignature(c *core.Ctx, code int64) string {
 				return core.CVal{Kind: core.CInt, I: code}, true
 			}
 			if call, ok := v.(*ssa.Call); ok && why == "" {
-				if cal := call.Call.StaticCallee(); cal != nil && cal.Name() == "fixedWidth" && len(call.Call.Args) == 1 {
+				if cal := call.Call.StaticCallee(); cal != nil && core.CanonName(cal) == "fixedWidth" && len(call.Call.Args) == 1 {
 					if p, ok := core.Unop(call.Call.Args[0]).(*ssa.Parameter); ok && p == f.Params[1] {
 						if w, has := fw[code]; has {
 							return core.CVal{Kind: core.CInt, I: w}, true
